@@ -156,12 +156,6 @@ impl Session {
                 }
             }
 
-            #[cfg(feature = "certification")]
-            if let Some(port) = encrypted_data.f_port()
-                && port > 0
-            {
-                self.rx_app_cnt += 1;
-            }
             #[cfg(feature = "multicast")]
             if let Some(port) = encrypted_data.f_port()
                 && multicast.is_in_range(port)
@@ -182,6 +176,14 @@ impl Session {
                     self.uplink.clear_mac_commands(false);
                 }
                 self.fcnt_down = Some(fcnt);
+                // The applicative downlink counter counts authenticated downlinks only and
+                // rolls over like the 16-bit field it is reported in.
+                #[cfg(feature = "certification")]
+                if let Some(port) = encrypted_data.f_port()
+                    && port > 0
+                {
+                    self.rx_app_cnt = self.rx_app_cnt.wrapping_add(1);
+                }
                 // Any accepted downlink confirms connectivity for ADR.
                 self.adr_ack_cnt = 0;
                 // We can safely unwrap here because we already validated the MIC
